@@ -22,7 +22,6 @@ import (
 
 	"github.com/tilinna/clock"
 
-	"github.com/atlassian/gostatsd"
 	"github.com/atlassian/gostatsd/pkg/statsd"
 
 	"verif/mon"
@@ -53,10 +52,29 @@ type alignCase struct {
 	OffsetClass string `json:"offset_class"`
 	Pattern     string `json:"pattern"`
 	Divides     bool   `json:"interval_divides_day"`
+	// flusher mode
+	Backends int `json:"backends,omitempty"` // capturing backends behind the flusher
+	// WallAnchored: the flusher takes its start-up instant from the real clock, so the mock clock starts at
+	// the real "now" too (as in production, where the two are the same clock). The case fixes how long before
+	// a boundary start-up happens (LeadNs); StartNs and OffsetNs (= (start+lead) mod interval) are derived when
+	// the case runs and are recorded for the witness only.
+	WallAnchored bool  `json:"wall_anchored,omitempty"`
+	LeadNs       int64 `json:"lead_ns,omitempty"`
+	// configuration phase: IntervalNs / OffsetNs above are what the configuration text says; the flusher is
+	// driven with what cmd/gostatsd constructed from it.
+	Config *invocation `json:"config,omitempty"`
+	Built  *builtFlush `json:"built,omitempty"`
 }
 
 func (c *alignCase) String() string {
-	return fmt.Sprintf("%s start=%d interval=%d offset=%d steps=%v aggs=%d", c.Mode, c.StartNs, c.IntervalNs, c.OffsetNs, c.Steps, c.Aggregators)
+	s := fmt.Sprintf("%s start=%d interval=%d offset=%d steps=%v aggs=%d backends=%d", c.Mode, c.StartNs, c.IntervalNs, c.OffsetNs, c.Steps, c.Aggregators, c.Backends)
+	if c.WallAnchored {
+		s += fmt.Sprintf(" wall-anchored lead=%d", c.LeadNs)
+	}
+	if c.Config != nil {
+		s += fmt.Sprintf(" config: args=%v env=%v file=%q", c.Config.Args, c.Config.Env, c.Config.File)
+	}
+	return s
 }
 
 // intervals between 1ms and 1h that divide 86400s: a multiple of such an interval counted from the
@@ -125,41 +143,29 @@ func genCase(rng *rand.Rand, mode string) *alignCase {
 	default:
 		c.OffsetNs, c.OffsetClass = -(1 + rng.Int63n(2*i)), "negative"
 	}
-	// an arbitrary instant between 1700 and 2200 (UnixNano is exact in that range), mostly after 1990
-	var base int64
-	if rng.Intn(6) == 0 {
-		base = -8_500_000_000_000_000_000 + rng.Int63n(8_400_000_000_000_000_000) // 1700..1969
-	} else {
-		base = 631_152_000_000_000_000 + rng.Int63n(6_600_000_000_000_000_000) // 1990..2199
-	}
-	// the boundary at or before base under the reading the implementation is documented to use
-	// (time.Truncate counts from the zero time; identical to the epoch reading when the interval divides a day)
-	_, zr := c.rems(base)
-	boundary := base - zr
-	switch rng.Intn(8) {
-	case 0, 1:
-		c.StartNs, c.StartClass = boundary, "on-boundary"
-	case 2:
-		c.StartNs, c.StartClass = boundary+1, "boundary+1ns"
-	case 3:
-		c.StartNs, c.StartClass = boundary-1, "boundary-1ns"
-	case 4:
-		c.StartNs, c.StartClass = boundary+i/2, "mid"
-	default:
-		c.StartNs, c.StartClass = base, "arbitrary"
-	}
+	pickStart(rng, c)
 	if mode == "flusher" {
-		c.Aggregators = 1 + rng.Intn(3)
-		n := 3 + rng.Intn(5)
-		c.Pattern = "exact"
-		for s := 0; s < n; s++ {
-			if s > 0 && rng.Intn(5) == 0 {
-				c.Steps = append(c.Steps, step{Kind: "hold", N: 1 + rng.Intn(3)})
-				c.Pattern = "blocked-flush"
-			} else {
-				c.Steps = append(c.Steps, step{Kind: "next"})
+		if c.Divides && rng.Intn(2) == 0 {
+			// start-up a chosen lead before a boundary, on the clock the flusher itself reads at start-up
+			c.WallAnchored, c.OffsetNs, c.StartNs, c.OffsetClass = true, 0, 0, "derived"
+			switch rng.Intn(8) {
+			case 0:
+				c.LeadNs, c.StartClass = 1, "lead-1ns"
+			case 1:
+				c.LeadNs, c.StartClass = 1+rng.Int63n(maxI(i/1000, 1)), "lead-under-1/1000"
+			case 2, 3:
+				c.LeadNs, c.StartClass = 1+rng.Int63n(maxI(i/10-1, 1)), "lead-under-1/10"
+			case 4:
+				c.LeadNs, c.StartClass = i/10+rng.Int63n(i-i/10-i/10), "lead-mid"
+			case 5:
+				c.LeadNs, c.StartClass = i-i/10+rng.Int63n(i/10), "lead-over-9/10"
+			case 6:
+				c.LeadNs, c.StartClass = i-1, "lead-interval-1ns"
+			default:
+				c.LeadNs, c.StartClass = i, "lead-full-interval"
 			}
 		}
+		genFlusherSteps(rng, c)
 		return c
 	}
 	// ticker patterns
@@ -223,6 +229,50 @@ func genCase(rng *rand.Rand, mode string) *alignCase {
 	return c
 }
 
+// pickStart chooses the start instant of a case whose interval and offset are set.
+func pickStart(rng *rand.Rand, c *alignCase) {
+	i := c.IntervalNs
+	// an arbitrary instant between 1700 and 2200 (UnixNano is exact in that range), mostly after 1990
+	var base int64
+	if rng.Intn(6) == 0 {
+		base = -8_500_000_000_000_000_000 + rng.Int63n(8_400_000_000_000_000_000) // 1700..1969
+	} else {
+		base = 631_152_000_000_000_000 + rng.Int63n(6_600_000_000_000_000_000) // 1990..2199
+	}
+	// the boundary at or before base under the reading the implementation is documented to use
+	// (time.Truncate counts from the zero time; identical to the epoch reading when the interval divides a day)
+	_, zr := c.rems(base)
+	boundary := base - zr
+	switch rng.Intn(8) {
+	case 0, 1:
+		c.StartNs, c.StartClass = boundary, "on-boundary"
+	case 2:
+		c.StartNs, c.StartClass = boundary+1, "boundary+1ns"
+	case 3:
+		c.StartNs, c.StartClass = boundary-1, "boundary-1ns"
+	case 4:
+		c.StartNs, c.StartClass = boundary+i/2, "mid"
+	default:
+		c.StartNs, c.StartClass = base, "arbitrary"
+	}
+}
+
+// genFlusherSteps: exact steps, optionally the aggregators kept busy while deadlines pass; 0-2 backends.
+func genFlusherSteps(rng *rand.Rand, c *alignCase) {
+	c.Aggregators = 1 + rng.Intn(3)
+	c.Backends = rng.Intn(3)
+	n := 3 + rng.Intn(5)
+	c.Pattern = "exact"
+	for s := 0; s < n; s++ {
+		if s > 0 && rng.Intn(5) == 0 {
+			c.Steps = append(c.Steps, step{Kind: "hold", N: 1 + rng.Intn(3)})
+			c.Pattern = "blocked-flush"
+		} else {
+			c.Steps = append(c.Steps, step{Kind: "next"})
+		}
+	}
+}
+
 func maxI(a, b int64) int64 {
 	if a > b {
 		return a
@@ -278,6 +328,7 @@ type sched struct {
 	period     time.Duration
 	firstExact bool // the first deadline was hit exactly, so the repeating ticker started on it
 	firstSeen  bool
+	mismatch   bool
 }
 
 // init waits for the first timer (or ticker) to exist. It returns the instant of an immediate fire
@@ -316,7 +367,9 @@ func (s *sched) armTicker(c created) {
 }
 
 // advance moves the mock and returns the instant at which the pending timer fired (zero: nothing fired).
+// After ok == false, s.mismatch tells a clock-model mismatch (not judged) from a watchdog expiry.
 func (s *sched) advance(st step) (now, fired time.Time, ok bool) {
+	s.mismatch = false
 	if !mon.WaitUntil(watchdog, func() bool { return s.rc.Len() > 0 }) {
 		return time.Time{}, time.Time{}, false
 	}
@@ -328,6 +381,7 @@ func (s *sched) advance(st step) (now, fired time.Time, ok bool) {
 		if !now.Equal(s.pending) {
 			// the mock had another pending deadline than the one the monitor derived from the recorded
 			// timer/ticker creations: do not judge this case
+			s.mismatch = true
 			return now, time.Time{}, false
 		}
 	}
@@ -390,12 +444,39 @@ func (c *alignCase) judgeAligned(ns []int64) bool {
 }
 
 func (k *checker) classes(c *alignCase) {
-	if c.OffsetNs != 0 || (c.Pattern != "exact") {
+	switch {
+	case c.Config != nil:
+		k.r.Nontrivial("config|" + c.Config.classKey() + "|" + c.Pattern)
+	case c.WallAnchored:
+		k.r.Nontrivial(fmt.Sprintf("%s|i=%d|%s|%s|backends=%v", c.Mode, c.IntervalNs, c.StartClass, c.Pattern, c.Backends > 0))
+	case c.OffsetNs != 0 || (c.Pattern != "exact"):
 		k.r.Nontrivial(fmt.Sprintf("%s|i=%d|off=%s|%s", c.Mode, c.IntervalNs, c.OffsetClass, c.Pattern))
 	}
 }
 
-func (k *checker) runTicker(c *alignCase) {
+// tickerCase runs one ticker case. A watchdog expiry (a timer that is never armed, a tick that is never
+// delivered in this deterministic script) is reproduced once: the same expiry again is a violation of bounded
+// progress (the first tick is promised within one interval of the mock clock, which has passed), anything
+// else is inconclusive.
+func (k *checker) tickerCase(c *alignCase) {
+	stall := k.runTicker(c)
+	if stall == "" {
+		return
+	}
+	k.r.Event("watchdog_expiry_reproduced", 1)
+	switch again := k.runTicker(c); again {
+	case stall:
+		k.r.Violation("tick-never-arrives:"+stall+":"+c.Pattern, fmt.Sprintf("interval=%v offset=%v start=%v: %s in two runs of the same deterministic mock-clock script (watchdog %v each)", time.Duration(c.IntervalNs), time.Duration(c.OffsetNs), time.Unix(0, c.StartNs).UTC(), stall, watchdog), map[string]interface{}{"case": c})
+	case "":
+		k.r.Event("watchdog_expiry_not_reproduced", 1) // evaluated by the second run
+	default:
+		k.r.Inconclusive(stall)
+	}
+}
+
+// runTicker returns "" when the case was evaluated (or set aside as inconclusive), or the stage at which
+// a watchdog expired.
+func (k *checker) runTicker(c *alignCase) (stall string) {
 	k.r.Case("%s", c)
 	start := time.Unix(0, c.StartNs).UTC()
 	interval, offset := time.Duration(c.IntervalNs), time.Duration(c.OffsetNs)
@@ -419,8 +500,7 @@ func (k *checker) runTicker(c *alignCase) {
 	}
 	fired, ok := s.init(start)
 	if !ok {
-		k.r.Inconclusive("ticker-never-armed")
-		return
+		return "ticker-never-armed"
 	}
 	undrained := 0 // fires whose tick was not taken yet
 	if !fired.IsZero() {
@@ -430,8 +510,11 @@ func (k *checker) runTicker(c *alignCase) {
 	for _, st := range c.Steps {
 		_, fired, ok := s.advance(st)
 		if !ok {
-			k.r.Inconclusive("ticker-not-rearmed")
-			return
+			if s.mismatch {
+				k.r.Inconclusive("clock-model-mismatch")
+				return ""
+			}
+			return "ticker-not-rearmed"
 		}
 		if !fired.IsZero() {
 			k.r.Event("timer_fired", 1)
@@ -443,8 +526,7 @@ func (k *checker) runTicker(c *alignCase) {
 			// one blocking receive: the channel has capacity 1, at least one tick of the undrained fires is
 			// (or will be) in it; further ones may have been dropped by the ticker.
 			if !take() {
-				k.r.Inconclusive("tick-not-delivered")
-				return
+				return "tick-not-delivered"
 			}
 			if undrained > 1 {
 				k.r.Event("slow_consumer_episode", 1)
@@ -467,7 +549,7 @@ func (k *checker) runTicker(c *alignCase) {
 	k.r.Event("ticks", len(ticks))
 	if len(ticks) == 0 {
 		k.r.Inconclusive("no-tick-observed")
-		return
+		return ""
 	}
 	k.classes(c)
 
@@ -511,6 +593,7 @@ func (k *checker) runTicker(c *alignCase) {
 	if k.r.WantSample() && c.OffsetNs != 0 && c.Pattern != "exact" {
 		k.r.Sample(witness)
 	}
+	return ""
 }
 
 func fmtTimes(ns []int64) []string {
@@ -529,203 +612,6 @@ func remsOf(t []tickRec) [][2]int64 {
 	return out
 }
 
-// ---------------------------------------------------------------------------------------------------
-// flusher mode
-
-type flushRec struct {
-	Reading int64 `json:"clock_unix_ns"`
-	D       int64 `json:"elapsed_ns"`
-	Worker  int   `json:"worker"`
-	Seq     int   `json:"flush_seq"`
-}
-
-type fakeAggs struct {
-	clk     *recClock
-	n       int
-	mu      sync.Mutex
-	recs    []flushRec
-	seq     int
-	hold    chan struct{} // when non-nil the next Process call stays busy until it is closed
-	flushed chan int
-	parked  chan int
-}
-
-type fakeAgg struct {
-	p      *fakeAggs
-	worker int
-	seq    int
-}
-
-func (a *fakeAgg) ReceiveMap(*gostatsd.MetricMap) {}
-func (a *fakeAgg) Process(statsd.ProcessFunc)     {}
-func (a *fakeAgg) Reset()                         {}
-func (a *fakeAgg) Flush(d time.Duration) {
-	now := a.p.clk.Now()
-	a.p.mu.Lock()
-	a.p.recs = append(a.p.recs, flushRec{Reading: now.UnixNano(), D: int64(d), Worker: a.worker, Seq: a.seq})
-	a.p.mu.Unlock()
-}
-
-func (p *fakeAggs) Process(ctx context.Context, fn statsd.DispatcherProcessFunc) gostatsd.Wait {
-	p.mu.Lock()
-	seq := p.seq
-	p.seq++
-	hold := p.hold
-	p.hold = nil
-	p.mu.Unlock()
-	for w := 0; w < p.n; w++ {
-		fn(w, &fakeAgg{p: p, worker: w, seq: seq})
-	}
-	if hold != nil {
-		p.parked <- seq
-		<-hold
-	}
-	return func() { p.flushed <- seq }
-}
-
-func waitInt(ch <-chan int) bool {
-	select {
-	case <-ch:
-		return true
-	default:
-	}
-	t := time.NewTimer(watchdog)
-	defer t.Stop()
-	select {
-	case <-ch:
-		return true
-	case <-t.C:
-		return false
-	}
-}
-
-func (k *checker) runFlusher(c *alignCase) {
-	k.r.Case("%s", c)
-	start := time.Unix(0, c.StartNs).UTC()
-	interval, offset := time.Duration(c.IntervalNs), time.Duration(c.OffsetNs)
-	rc := &recClock{Mock: clock.NewMock(start)}
-	ctx, cancel := context.WithCancel(clock.Context(context.Background(), rc))
-	aggs := &fakeAggs{clk: rc, n: c.Aggregators, flushed: make(chan int, 1024), parked: make(chan int, 16)}
-	f := statsd.NewMetricFlusher(interval, offset, true, aggs, nil)
-	done := make(chan struct{})
-	go func() { defer close(done); f.Run(ctx) }()
-	var open chan struct{}
-	finish := func() {
-		aggs.mu.Lock()
-		aggs.hold = nil
-		aggs.mu.Unlock()
-		if open != nil {
-			close(open)
-			open = nil
-		}
-		cancel()
-		<-done
-	}
-	s := &sched{rc: rc}
-	if _, ok := s.init(start); !ok {
-		finish()
-		k.r.Inconclusive("flusher-ticker-never-armed")
-		return
-	}
-	var triggers []int64
-	adv := func() bool {
-		_, fired, ok := s.advance(step{Kind: "next"})
-		if !ok {
-			finish()
-			k.r.Inconclusive("flusher-ticker-not-rearmed")
-			return false
-		}
-		if !fired.IsZero() {
-			triggers = append(triggers, fired.UnixNano())
-		}
-		return true
-	}
-	for _, st := range c.Steps {
-		if st.Kind == "hold" {
-			// the next flush keeps the aggregators busy while N more deadlines pass
-			open = make(chan struct{})
-			aggs.mu.Lock()
-			aggs.hold = open
-			aggs.mu.Unlock()
-		}
-		if !adv() {
-			return
-		}
-		if st.Kind == "hold" {
-			if !waitInt(aggs.parked) {
-				finish()
-				k.r.Inconclusive("flush-not-started")
-				return
-			}
-			for j := 0; j < st.N; j++ {
-				if !adv() {
-					return
-				}
-			}
-			k.r.Event("flush_blocked_over_deadlines", st.N)
-			close(open)
-			open = nil
-		}
-		// every advancement fires the ticker, so at least one flush follows (possibly for an older tick
-		// that was still buffered)
-		if !waitInt(aggs.flushed) {
-			finish()
-			k.r.Inconclusive("flush-not-completed")
-			return
-		}
-	drainExtra:
-		for {
-			select {
-			case <-aggs.flushed:
-			default:
-				break drainExtra
-			}
-		}
-	}
-	finish()
-	aggs.mu.Lock()
-	recs := append([]flushRec(nil), aggs.recs...)
-	aggs.mu.Unlock()
-	k.r.Eval(1)
-	k.r.Event("flushes", len(recs))
-	if len(recs) == 0 {
-		k.r.Inconclusive("no-flush-observed")
-		return
-	}
-	k.classes(c)
-	witness := map[string]interface{}{"case": c, "flushes": recs, "trigger_instants": triggers}
-	sig := c.Pattern
-	if !c.Divides {
-		sig += ":interval-not-dividing-a-day"
-	}
-	readings := make([]int64, len(recs))
-	for i, rec := range recs {
-		readings[i] = rec.Reading
-	}
-	if !c.judgeAligned(readings) {
-		k.r.Violation("flush-misaligned:"+sig, fmt.Sprintf("aligned flusher interval=%v offset=%v start=%v: clock readings at Aggregator.Flush %v are not all offset+n*interval", interval, offset, start, fmtTimes(readings)), witness)
-	}
-	if recs[0].Reading > c.StartNs+c.IntervalNs {
-		k.r.Violation("first-flush-late:"+sig, fmt.Sprintf("aligned flusher interval=%v offset=%v start=%v: first flush at %v, later than start+interval", interval, offset, start, time.Unix(0, recs[0].Reading).UTC()), witness)
-	}
-	for _, rec := range recs {
-		if rec.Seq == 0 {
-			continue // seeded from the real clock, not judged
-		}
-		k.r.Event("elapsed_judged", 1)
-		if rec.D > c.IntervalNs {
-			k.r.Event("elapsed_several_intervals", 1)
-		}
-		if rec.D <= 0 || rec.D%c.IntervalNs != 0 {
-			k.r.Violation("flush-elapsed-not-multiple:"+sig, fmt.Sprintf("aligned flusher interval=%v offset=%v start=%v: flush #%d was given elapsed time %v, not a positive multiple of the interval", interval, offset, start, rec.Seq, time.Duration(rec.D)), witness)
-			break
-		}
-	}
-	if k.r.WantSample() && c.OffsetNs != 0 && c.StartClass != "on-boundary" {
-		k.r.Sample(witness)
-	}
-}
-
 func TestCheck(t *testing.T) {
 	r := mon.Start(t, "C18")
 	defer r.Finish()
@@ -740,10 +626,13 @@ func TestCheck(t *testing.T) {
 		if mon.ReplayCase(p, &w) == nil || w.Case == nil {
 			t.Skip("no case in replay file")
 		}
-		if w.Case.Mode == "flusher" {
-			k.runFlusher(w.Case)
-		} else {
-			k.runTicker(w.Case)
+		switch {
+		case w.Case.Config != nil:
+			replayConfig(t, r, k, w.Case)
+		case w.Case.Mode == "flusher":
+			k.flusherCase(w.Case)
+		default:
+			k.tickerCase(w.Case)
 		}
 		r.Nontrivial("replay-a")
 		r.Nontrivial("replay-b")
@@ -754,15 +643,16 @@ func TestCheck(t *testing.T) {
 	nTicker := r.N(5000, 1000000)
 	nFlusher := r.N(500, 50000)
 	for i := 0; i < nTicker; i++ {
-		k.runTicker(genCase(rng, "ticker"))
+		k.tickerCase(genCase(rng, "ticker"))
 		if r.Violations() > 8 {
 			break
 		}
 	}
 	for i := 0; i < nFlusher; i++ {
-		k.runFlusher(genCase(rng, "flusher"))
+		k.flusherCase(genCase(rng, "flusher"))
 		if r.Violations() > 12 {
 			break
 		}
 	}
+	configPhase(t, r, k)
 }
